@@ -523,9 +523,15 @@ func (r *Run) Loop(done func() bool, idleLimit time.Duration) {
 		if r.Keep || p.Kind != "y" {
 			r.Logf("run %s at %s %s fault=%d", p.Actor, p.Kind, p.Site, dec.Fault)
 		}
+		tick()
 		simrt.Release(p, dec)
 	}
 }
+
+// tick moves the simulated clock by one microsecond before every release, so that timers armed
+// in different steps never share a deadline instant: the order in which same-instant timers fire
+// relative to the goroutines they wake is not under the simulator's control.
+func tick() { time.Sleep(time.Microsecond) }
 
 // FairDrain is the liveness phase: faults are off, stalls end, and every enabled actor is
 // released round-robin; the clock advances when nothing is enabled. It returns when done()
@@ -558,6 +564,7 @@ func (r *Run) FairDrain(done func() bool, maxSteps int, maxSim time.Duration) bo
 		p := ps[i%len(ps)]
 		dec := r.decideFault(p) // only FCtx can come out of this now
 		r.sched = append(r.sched, fmt.Sprintf("%d drain %s %s %s", r.Step, p.Actor, p.Kind, p.Site))
+		tick()
 		simrt.Release(p, dec)
 	}
 	synctest.Wait()
